@@ -341,6 +341,10 @@ def execute(sc, ctx) -> None:
                             orc_b.block(next(gen_b))
                         except StopIteration:
                             gen_b = None
+                        except Violation:
+                            raise
+                        except Exception as e:  # noqa: BLE001 - K4 runs fault-free: the second reader must not raise
+                            raise Violation("C01/read_plan/raised/K4-second-reader", repr(e), orc_b.info) from None
                     if op["abandon_at"] is not None and yielded > op["abandon_at"]:
                         gen.close()
                         abandoned = True
@@ -402,4 +406,8 @@ def execute(sc, ctx) -> None:
                 except StopIteration:
                     gen_b = None
                     orc_b.exhausted()
+                except Violation:
+                    raise
+                except Exception as e:  # noqa: BLE001
+                    raise Violation("C01/read_plan/raised/K4-second-reader", repr(e), orc_b.info) from None
         reader._file.close()
